@@ -1121,3 +1121,24 @@ def field_consumption(F, fnpaths):
                 if pl is not None:
                     add(sources(pl).keys(), p, ln, "yielded")
     return out
+
+
+def same_file_family(F, f, limit=120):
+    """f, its closures, and the functions of the same source file it (transitively) calls: the unit a maintainer would
+    split or merge when extracting helpers, so rules that read templates / constants of `f` read the family."""
+    out = []
+    seen = set()
+    todo = [f.path]
+    while todo:
+        p = todo.pop()
+        if p in seen or p not in F.fns:
+            continue
+        seen.add(p)
+        for q in body_and_closures(F, p):
+            if q not in out:
+                out.append(q)
+            for _, t in F.fns[q].calls():
+                n = callee_name(t)
+                if n and n in F.fns and n not in seen and F.fns[n].file == f.file and len(F.fns[n].blocks) < limit:
+                    todo.append(n)
+    return out
